@@ -2,6 +2,7 @@ package main
 
 import (
 	"fmt"
+	"strings"
 	"sync/atomic"
 
 	"verif/harness/h"
@@ -172,6 +173,10 @@ func c03Sweeps(r rm.Router, tier string) []sweep {
 			u3.Segs = append(u3.Segs, "x.js")
 		}
 	}
+	// P2r: two routes of one service, the second declared by using the first route's RouteBuilder again
+	ur := rs.Universe{Tokens: []string{"a", "b", "{x}"}, Roots: []string{"/a", "/"}, MaxSub: 2,
+		Segs: []string{"a", "b", "7"}, MaxPath: 3, RMethods: []string{"GET", "POST"}, QMethods: []string{"GET", "POST", "PUT"}}
+	out = append(out, sweep{"P2r", r, sameService(pairs(pathAtoms(ur))), crossReqs(ur.Paths(), ur.QMethods, rs.PathSweepHeaders[:1], false)})
 	out = append(out, sweep{"P3", r, triples(pathAtoms(u3)), crossReqs(u3.Paths(), u3.QMethods, rs.PathSweepHeaders[:1], true)})
 	// header variants: two routes on one template distinguished by method, plus a more specific sibling
 	hu := rs.HeaderUniverse{Consumes: [][]string{nil, {rs.JSON}}, Produces: [][]string{nil, {rs.XML}, {rs.JSON}}, Ifs: [][]rm.Cond{nil, {rm.CondHdr}}, NoCT: [][]string{nil},
@@ -208,13 +213,61 @@ func judgeBest(p *rm.Parsed, mq rm.Request, r rm.Router, o rs.Outcome) string {
 	return fmt.Sprintf("route #%d ran; the most specific eligible routes per maximal root are %+v", id, an.Exps)
 }
 
+// muxPrefix: the ServeMux pattern base the container derives from a root path (the text before
+// the first variable).
+func muxPrefix(root string) string {
+	if i := strings.Index(root, "{"); i >= 0 {
+		return root[:i]
+	}
+	return root
+}
+
+// f21: signature of the recorded finding F21 - once a WebService whose mux pattern is "/" (root
+// "/" or a root that starts with a variable) has been added, Container.Add registers no pattern
+// for the services added later. A service whose fixed prefix is the subtree path+"/" therefore
+// makes net/http's ServeMux redirect "path" to "path/" only if it was added BEFORE the "/"
+// service. The signature: exactly one of the two answers is that redirect (301, nothing invoked,
+// Location = path + "/"), the other is what the container's own dispatcher answers on the same
+// build, and the set of patterns registered up to and including the first "/" service explains
+// the redirect in the one order (path+"/" registered, path not) and its absence in the other.
+func f21(t rm.Table, path string, redir, other string, redirOrder, otherOrder []int, otherDispatch string) bool {
+	if !strings.HasPrefix(redir, "301 ") || !strings.HasSuffix(redir, " Location="+path+"/") || strings.Contains(redir, "#") {
+		return false
+	}
+	if other != otherDispatch+" Location=" {
+		return false
+	}
+	// the patterns an Add order registers: every service up to and including the first "/" service
+	redirects := func(order []int) bool {
+		pats := map[string]bool{}
+		for _, si := range order {
+			pre := muxPrefix(t.Svcs[si].Root)
+			if pre == "/" || pre == "" {
+				pats["/"] = true
+				break
+			}
+			pats[pre] = true
+			if !strings.HasSuffix(pre, "/") {
+				pats[pre+"/"] = true
+			}
+		}
+		return pats[path+"/"] && !pats[path]
+	}
+	return redirects(redirOrder) && !redirects(otherOrder)
+}
+
 func replayC03(rc routingCase, o rs.Outcome) error {
 	p := rm.Parse(rc.Table)
 	r := routerOf(rc.Router)
 	keys := map[string]bool{}
 	for _, opt := range ordersC03(rc.Sweep, rc.Table) {
 		opt.Router = r
-		k := rs.Build(rc.Table, opt).Do(rc.Req.HTTP(), h.NewRec(), false).Key()
+		opt.Reuse = rc.Reuse
+		rec := h.NewRec()
+		k := rs.Build(rc.Table, opt).Do(rc.Req.HTTP(), rec, rc.Serve).Key()
+		if rc.Serve {
+			k += " Location=" + rec.Result().Get("Location")
+		}
 		fmt.Printf("order svc=%v routes=%v -> %s\n", opt.SvcOrder, opt.RouteOrder, k)
 		keys[k] = true
 	}
@@ -246,6 +299,7 @@ func checkC03(run *h.Run) {
 				bs := make([]*rs.Built, len(opts))
 				for i := range opts {
 					opts[i].Router = router
+					opts[i].Reuse = sp.Name == "P2r"
 					bs[i] = rs.Build(t, opts[i])
 					if bs[i].Panic != "" {
 						atomic.AddInt64(&st.buildPanics, 1)
@@ -266,7 +320,7 @@ func checkC03(run *h.Run) {
 						oi := bs[i].Do(w.https[qi], w.rec, false)
 						disp++
 						if ki := oi.Key(); ki != k0 {
-							rc := routingCase{Sweep: sp.Name, Router: router.String(), Table: t, Req: w.reqs[qi], Observed: o0, Other: map[string]any{"order": opts[i], "outcome": oi}}
+							rc := routingCase{Sweep: sp.Name, Router: router.String(), Table: t, Req: w.reqs[qi], Observed: o0, Reuse: sp.Name == "P2r", Other: map[string]any{"order": opts[i], "outcome": oi}}
 							qi, i := qi, i
 							run.Violate("order-dependence/"+router.String(), "", fmt.Sprintf("[%s] %v ; %v : registration order as declared -> %s, order svc=%v routes=%v -> %s", router, t, w.reqs[qi], k0, opts[i].SvcOrder, opts[i].RouteOrder, ki), rc, func() bool {
 								a := rs.Build(t, opts[0]).Do(w.reqs[qi].HTTP(), h.NewRec(), false)
@@ -277,7 +331,7 @@ func checkC03(run *h.Run) {
 						}
 					}
 					if why := judgeBest(p, w.mreqs[qi], router, o0); why != "" {
-						rc := routingCase{Sweep: sp.Name, Router: router.String(), Table: t, Req: w.reqs[qi], Observed: o0}
+						rc := routingCase{Sweep: sp.Name, Router: router.String(), Table: t, Req: w.reqs[qi], Observed: o0, Reuse: sp.Name == "P2r"}
 						qi := qi
 						run.Violate("less-specific/"+router.String(), "", fmt.Sprintf("[%s] %v ; %v : %s", router, t, w.reqs[qi], why), rc, func() bool {
 							o := rs.Build(t, opts[0]).Do(w.reqs[qi].HTTP(), h.NewRec(), false)
@@ -294,6 +348,76 @@ func checkC03(run *h.Run) {
 			all[name] = st
 		}
 	}
+	// (S2/S3) Add order through ServeHTTP: the ServeMux patterns the container registers for its
+	// services must not depend on the order in which the services were added either
+	for _, router := range []rm.Router{rm.Curly, rm.JSR311} {
+		router := router
+		var atoms []atom
+		for _, root := range []string{"/", "/a", "/a/b", "/a/{r}", "/{v}", "/ab", "/a/{r}/c"} {
+			atoms = append(atoms, atom{root, rm.RouteDecl{Method: "GET", Sub: ""}})
+		}
+		paths := []h.Req{{}, {Segs: []string{"zz"}}}
+		for _, segs := range [][]string{{"a"}, {"a", "b"}, {"a", "1"}, {"1"}, {"ab"}, {"a", "1", "c"}} {
+			paths = append(paths, h.Req{Segs: segs}, h.Req{Segs: segs, Slash: true}, h.Req{Segs: append(append([]string{}, segs...), "p")})
+		}
+		for _, sp := range []sweep{{"S2", router, pairs(atoms), crossReqs(paths, []string{"GET", "POST"}, rs.PathSweepHeaders[:1], false)}, {"S3", router, triples(atoms), crossReqs(paths, []string{"GET", "POST"}, rs.PathSweepHeaders[:1], false)}} {
+			sp := sp
+			name := fmt.Sprintf("%s/%s", router, sp.Name)
+			order = append(order, name)
+			all[name] = runSweep(run, sp, func(w *worker, t rm.Table, p *rm.Parsed, st *sweepStats) {
+				if excludedC03(p, router) {
+					atomic.AddInt64(&excluded, 1)
+					return
+				}
+				opts := buildOrders(t)
+				bs := make([]*rs.Built, len(opts))
+				for i := range opts {
+					opts[i].Router = router
+					bs[i] = rs.Build(t, opts[i])
+					if bs[i].Panic != "" {
+						atomic.AddInt64(&st.buildPanics, 1)
+						return
+					}
+				}
+				atomic.AddInt64(&permBuilds, int64(len(opts)))
+				serveKey := func(b *rs.Built, qi int) string {
+					o := b.Do(w.https[qi], w.rec, true)
+					return o.Key() + " Location=" + w.rec.Result().Get("Location")
+				}
+				var cases, disp, nontriv int64
+				for qi := range w.reqs {
+					k0 := serveKey(bs[0], qi)
+					cases++
+					disp++
+					nontriv++
+					for i := 1; i < len(bs); i++ {
+						disp++
+						if ki := serveKey(bs[i], qi); ki != k0 {
+							rc := routingCase{Sweep: sp.Name, Router: router.String(), Table: t, Req: w.reqs[qi], Serve: true, Other: map[string]any{"order": opts[i], "outcome": ki}}
+							qi, i := qi, i
+							finding := ""
+							path := w.reqs[qi].Path()
+							d0 := bs[0].Do(w.https[qi], w.rec, false).Key()
+							di := bs[i].Do(w.https[qi], w.rec, false).Key()
+							if f21(t, path, ki, k0, opts[i].SvcOrder, opts[0].SvcOrder, d0) || f21(t, path, k0, ki, opts[0].SvcOrder, opts[i].SvcOrder, di) {
+								finding = "F21"
+							}
+							run.Violate("order-dependence-serve/"+router.String(), finding, fmt.Sprintf("[%s] %v ; %v through ServeHTTP : services added as declared -> %s, added in the order %v -> %s", router, t, w.reqs[qi], k0, opts[i].SvcOrder, ki), rc, func() bool {
+								ra, rb := h.NewRec(), h.NewRec()
+								a := rs.Build(t, opts[0]).Do(w.reqs[qi].HTTP(), ra, true)
+								b := rs.Build(t, opts[i]).Do(w.reqs[qi].HTTP(), rb, true)
+								return a.Key()+ra.Result().Get("Location") != b.Key()+rb.Result().Get("Location")
+							})
+							break
+						}
+					}
+				}
+				atomic.AddInt64(&st.cases, cases)
+				atomic.AddInt64(&st.dispatches, disp)
+				atomic.AddInt64(&st.nontrivial, nontriv)
+			})
+		}
+	}
 	cases, disp, nontriv := sweepCoverage(run, all, order)
 	run.Cov["states"] = cases
 	run.Cov["transitions"] = disp
@@ -303,6 +427,6 @@ func checkC03(run *h.Run) {
 	run.Cov["tables_excluded_by_the_property"] = excluded
 	run.Cov["permuted_container_builds"] = permBuilds
 	run.Cov["exhaustive"] = true
-	run.Cov["rule"] = "E1 with a permutation dimension: 2-route tables (P2 alphabets + a literal that a prefix variable also matches), 3-route tables (P3), 2-route header variants (H2) and wide tables (W2: one service with the 16 four-segment literal/variable templates, 256 registration orders, up to 16 candidates per request); for each small table every permutation of the Add order x every permutation of the Route order within each service is built and every request dispatched on all builds. Oracles: identical outcome under every permutation (differential); the invoked route is not less specific than another eligible route and its service is a maximal claiming root (reference model). Excluded as the property says: same-shape roots, same-method routes differing only in variable names; RouterJSR311 on literal roots only. Non-trivial: not a 404."
+	run.Cov["rule"] = "E1 with a permutation dimension: 2-route tables (P2 alphabets + a literal that a prefix variable also matches), two routes of one service declared with one reused RouteBuilder (P2r), 3-route tables (P3), 2-route header variants (H2) and wide tables (W2: one service with the 16 four-segment literal/variable templates, 256 registration orders, up to 16 candidates per request); for each small table every permutation of the Add order x every permutation of the Route order within each service is built and every request dispatched on all builds. Oracles: identical outcome under every permutation (differential); the invoked route is not less specific than another eligible route and its service is a maximal claiming root (reference model). S2/S3: 2 and 3 services over root paths that share prefixes, differ by a variable or are each other's prefix, every Add order, every request through ServeHTTP (status, route, Location must not depend on the order). Excluded as the property says: same-shape roots, same-method routes differing only in variable names; RouterJSR311 on literal roots only. Non-trivial: not a 404."
 	run.Assume = []string{"specificity order of DESIGN.md §5 (partial order; incomparable routes/roots accepted)"}
 }
